@@ -39,6 +39,32 @@ class AttemptError(IOError):
         self.idx = idx
 
 
+class _Idx:
+    """mixin: exceptions raised for attempt idx carry the index"""
+
+
+def _mk_exc(base):
+    class E(base, _Idx):
+        def __init__(self, idx):
+            base.__init__(self, "attempt %d failed" % idx)
+            self.idx = idx
+    E.__name__ = "Attempt" + base.__name__
+    return E
+
+
+# A connect callable may raise ANY Exception synchronously (OverflowError for a port > 65535, TypeError / ValueError
+# for a malformed sockaddr, OSError for bind / unsupported family): each is just a failed attempt.
+RAISE_KINDS = [_mk_exc(OverflowError), AttemptError, _mk_exc(TypeError), _mk_exc(ValueError), _mk_exc(RuntimeError)]
+
+
+def raise_kind(case, idx):
+    exc = case.get("exc")
+    if exc and exc[idx] is not None:
+        return RAISE_KINDS[exc[idx] % len(RAISE_KINDS)]
+    n_r = sum(1 for _, x in case["addrs"] if x == "raise")
+    return RAISE_KINDS[(idx * 7 + len(case["events"]) * 3 + len(case["addrs"]) + n_r) % len(RAISE_KINDS)]
+
+
 def run_impl(case):
     from tornado.concurrent import Future
     from tornado import tcpclient
@@ -77,7 +103,7 @@ def run_impl(case):
             if sync == "raise":          # connect() itself raises: no stream exists
                 if case.get("real"):     # ... raised by the REAL TCPClient._create_stream when IOStream() fails
                     return real_create_stream_failing(idx)
-                raise AttemptError(idx)
+                raise raise_kind(case, idx)(idx)
             streams[idx], futs[idx] = s, f
             if sync is True:
                 f.set_result(s)
@@ -138,7 +164,7 @@ def run_impl(case):
                 if streams.get(idx) is not stream or addrinfo[idx] != (af, addr):
                     return G.Tag("WrongResult")
                 return [G.Tag("Ok"), idx]
-            if isinstance(exc, AttemptError):
+            if isinstance(exc, (AttemptError, _Idx)):
                 return [G.Tag("Err"), exc.idx]
             if isinstance(exc, TTimeout):
                 return G.Tag("Timeout")
@@ -226,6 +252,14 @@ def corpus_cases():
         mk([(4, None), (4, "raise"), (6, "raise")], True, [D(0, False), C]),
         mk([(4, "raise")], False, []),
         mk([(4, None), (4, "raise"), (4, True)], True, [D(0, False), P]),
+        # seeded change C10_2 (`except Exception` narrowed to `except OSError`): non-OSError synchronous failures
+        # (OverflowError: port > 65535; TypeError / ValueError: malformed sockaddr) as first and as later address
+        dict(mk([(4, "raise"), (4, None)], False, [D(1, True)]), exc=[0, None]),                 # demo A
+        dict(mk([(4, None), (4, "raise"), (4, None)], False, [D(0, False), D(2, True)]), exc=[None, 0, None]),   # demo B
+        dict(mk([(4, None), (4, "raise")], False, [D(0, False)]), exc=[None, 0]),                 # demo C
+        dict(mk([(4, None), (6, "raise")], False, [P, D(0, False)]), exc=[None, 2]),              # from the fallback timer
+        dict(mk([(4, "raise"), (6, "raise")], True, [P]), exc=[3, 4]),
+        dict(mk([(4, None), (4, "raise"), (6, "raise"), (6, True)], True, [D(0, False)]), exc=[None, 2, 0, None]),
         # fixed defect (54c487e): the raise comes from the REAL TCPClient._create_stream with IOStream() failing
         # (used to be UnboundLocalError with the socket left open); the socket must be closed, the error an OSError
         dict(mk([(4, None), (6, "raise")], False, [P, D(0, False)]), real=True),
@@ -302,7 +336,10 @@ def gen_cases(rng, tier):
             pool.insert(rng.randrange(len(pool) + 1), ["D", rng.randrange(n + 2), rng.random() < 0.5])
         if rng.random() < 0.2:
             pool = pool[: rng.randrange(len(pool) + 1)]
-        out.append(mk(addrs, ct, pool))
+        c = mk(addrs, ct, pool)
+        if any(x == "raise" for _, x in addrs):
+            c["exc"] = [rng.randrange(len(RAISE_KINDS)) if x == "raise" else None for _, x in addrs]
+        out.append(c)
     return out
 
 
@@ -357,6 +394,9 @@ def classify(case, o):
     yield "families=%d" % len(set(f for f, _ in case["addrs"]))
     yield "sync=" + ("yes" if any(s is not None for _, s in case["addrs"]) else "no")
     yield "raises=" + ("yes" if any(s == "raise" for _, s in case["addrs"]) else "no")
+    for i, (_, s) in enumerate(case["addrs"]):
+        if s == "raise":
+            yield "raise_class=%s@%s" % (raise_kind(case, i).__mro__[1].__name__, "first" if i == 0 else "later")
     if isinstance(o, list) and o and isinstance(o[-1], list):
         f = o[-1][0]
         yield "final=" + (str(f[0]) if isinstance(f, list) else str(f))
@@ -383,7 +423,10 @@ def shrink(case):
     if len(ad) > 1:
         k = len(ad) - 1
         ev2 = [e for e in ev if not (e[0] == "D" and e[1] == k)]
-        yield dict(case, addrs=ad[:k], events=ev2)
+        c2 = dict(case, addrs=ad[:k], events=ev2)
+        if case.get("exc"):
+            c2["exc"] = case["exc"][:k]
+        yield c2
     for k, (f, s) in enumerate(ad):
         if s is not None:
             yield dict(case, addrs=ad[:k] + [[f, None]] + ad[k + 1:])
